@@ -113,6 +113,7 @@ class QSpec:
     odcid_len: int = 8
     retry: bool = False
     zero_rtt: list = field(default_factory=list)     # [[frame-spec,...]] one 0-RTT packet each (own datagram unless zero_rtt_coalesce)
+    zero_rtt_before_retry: int = 0                   # with retry: that many of the 0-RTT packets are (also) sent in the first flight, before the Retry
     zero_rtt_coalesce: bool = False                  # first 0-RTT packet shares the datagram of the (last) client Initial
     ch_split: tuple = ()          # cut points of ClientHello into CRYPTO frames
     ch_order: tuple = ()          # order in which the CRYPTO frames are sent
@@ -286,6 +287,10 @@ def build_qconn(spec: QSpec, rng) -> QConn:
         ci, si = refkdf.quic_initial_secrets(odcid)
         KI0 = Keys("sha256", ci, 16, "GCM")
         emit("c", [mk_long(KI0, 0, "init", "c", odcid, c_scid, [("crypto", 0, ch)], token=tok, pad_to=1162)])
+        if spec.zero_rtt and spec.zero_rtt_before_retry:
+            # the client's first flight already carries 0-RTT data; after the Retry it sends it again (RFC 9000 17.2.5.3) - both input datagrams carry STREAM data
+            for frames in spec.zero_rtt[:spec.zero_rtt_before_retry]:
+                emit("c", [mk_long(K["early"], 1, "app", "c", odcid, c_scid, [(f[0], f[1], f[2], dict(f[3])) for f in frames])])
         retry_scid = rb(rng.choice([8, 8, 4, 16, 20]))
         tok = rb(rng.randrange(8, 40))
         dg.append(Dgram("s", retry_packet(odcid, c_scid, retry_scid, tok), [PktInfo("retry", -1, 0, [])]))
@@ -526,6 +531,7 @@ def random_qspec(rng, napp=None, avoid=()):
             s.zero_rtt.append([("stream", 0, data, {"off": off or None})])
             off += len(data)
         s.zero_rtt_coalesce = rng.random() < 0.4
+        s.zero_rtt_before_retry = rng.randrange(0, nz + 1) if s.retry else 0
     s.coalesce_1rtt_with_hs = rng.random() < 0.3
     s.server_half_rtt = rng.random() < 0.3
     s.hs_split = rng.choice([1, 2, 2, 3])
